@@ -14,18 +14,33 @@ from ..report import Collector
 from .common import in_loop_body, path_text
 
 
-def _retry_unit(ctx: Ctx) -> FuncUnit:
-    """The manager method with a `while True` loop whose body invokes node code."""
+def _body_region(g: Graph, head: Ev) -> Set[int]:
+    return {ev.id for ev in g.evs if ev.id != head.id and in_loop_body(ev, head)}
+
+
+def _retry_loop(ctx: Ctx) -> Tuple[FuncUnit, Graph, Ev]:
+    """The manager coroutine and the loop (while / for, whatever its spelling) whose body invokes node code."""
     mgr = ctx.manager_class()
+    found = []
     for m in mgr.methods.values():
         if not m.is_async:
             continue
-        for n in ast.walk(m.node):
-            if isinstance(n, ast.While) and isinstance(n.test, ast.Constant) and n.test.value is True:
-                g = ctx.graph(m.fid)
-                if any(ctx.roles.body(ev) in ('process', 'executor') for ev in g.events('call')):
-                    return m
-    raise AnalysisError('retry loop (while True around the node invocation) not found (RT anchors vanished)')
+        if not any(isinstance(n, (ast.While, ast.For)) for n in ast.walk(m.node)):
+            continue
+        g = ctx.graph(m.fid)
+        for head in g.events('loophead') + g.events('loop'):
+            if head.inst.parent is not None or head.info.get('comp') is not None:
+                continue
+            region = _body_region(g, head)
+            if any(ctx.roles.body(g.evs[n]) in ('process', 'executor') for n in region if g.evs[n].kind == 'call'):
+                found.append((m, g, head))
+    if len(found) != 1:
+        raise AnalysisError(f'retry loop (a loop around the node invocation) not found: {len(found)} candidates (RT anchors vanished)')
+    return found[0]
+
+
+def _retry_unit(ctx: Ctx) -> FuncUnit:
+    return _retry_loop(ctx)[0]
 
 
 def _policy_class(ctx: Ctx) -> ClassInfo:
@@ -35,52 +50,91 @@ def _policy_class(ctx: Ctx) -> ClassInfo:
     raise AnalysisError('retry policy class not found (RT-1 anchor vanished)')
 
 
+def _policy_term(ctx: Ctx, ci: ClassInfo, name: str):
+    """Term of the policy property `name`, evaluated on a symbolic policy object."""
+    from ..cfg import Inst
+    m = ci.methods[name]
+    ret = sym.simple_return(m)
+    if ret is None:
+        return None, m
+    return sym.term(ctx.p, ret, Inst(m, None, None, {})), m
+
+
+def _is_setting(t, name: str, dflt) -> bool:
+    """t == <node>.<name> or <documented default>"""
+    if not (isinstance(t, tuple) and t[0] == 'or' and len(t[1]) == 2):
+        return False
+    a, b = t[1]
+    if not (isinstance(a, tuple) and a[0] == 'attr' and a[2] == name and 'node' in sym.show(a[1])):
+        return False
+    if dflt == 'exc':
+        return b == ('tuple', (('global', 'builtins.Exception'),))
+    return b == ('const', dflt) and type(b[1]) is type(dflt)
+
+
+def _reads_setting(t, name: str) -> bool:
+    """t is the policy's `name` setting whatever default it applies (RT-1 decides the default)."""
+    if isinstance(t, tuple) and t and t[0] == 'or':
+        t = t[1][0]
+    return isinstance(t, tuple) and len(t) == 3 and t[0] in ('attr', 'prop') and t[2] == name
+
+
 def rule_policy_defaults(ctx: Ctx, out: Collector) -> None:
     """RT-1: the policy maps the node's settings with the documented defaults: delay or 0, attempts or 1,
     exceptions or (Exception,)."""
     ci = _policy_class(ctx)
-    expect = {'delay': ('const', 0), 'attempts': ('const', 1), 'exceptions': 'exc'}
+    expect = {'delay': 0, 'attempts': 1, 'exceptions': 'exc'}
     for name, dflt in expect.items():
-        m = ci.methods[name]
+        t, m = _policy_term(ctx, ci, name)
         cons = f'{m.module.name}::{m.qualname}::<node>.{name} or <documented default>'
-        ret = sym.simple_return(m)
-        ok = False
-        detail = unparse(ret) if ret is not None else 'not a single return'
-        if isinstance(ret, ast.BoolOp) and isinstance(ret.op, ast.Or) and len(ret.values) == 2:
-            a, b = ret.values
-            src_ok = isinstance(a, ast.Attribute) and a.attr == name and 'node' in unparse(a)
-            if dflt == 'exc':
-                d_ok = isinstance(b, ast.Tuple) and len(b.elts) == 1 and isinstance(b.elts[0], ast.Name) and b.elts[0].id == 'Exception'
-            else:
-                d_ok = isinstance(b, ast.Constant) and b.value == dflt[1] and type(b.value) is type(dflt[1])
-            ok = src_ok and d_ok
-        if ok:
+        detail = sym.show(t) if t is not None else 'not a single return'
+        if t is not None and _is_setting(t, name, dflt):
             out.ok('RT-1', cons, ctx.p.loc(m, m.node), detail)
         else:
             out.bad('RT-1', cons, ctx.p.loc(m, m.node), f'the retry policy computes {name} as `{detail}` instead of '
-                                                        f'`node.{name} or {"(Exception,)" if dflt == "exc" else dflt[1]}`: the configured / '
+                                                        f'`node.{name} or {"(Exception,)" if dflt == "exc" else dflt}`: the configured / '
                                                         f'default {name} is not applied')
 
 
+def _innermost_try(loop_stmt: ast.AST, call: ast.AST) -> Optional[ast.Try]:
+    best = None
+    for n in ast.walk(loop_stmt):
+        if isinstance(n, ast.Try) and n.handlers and any(c is call for b in n.body for c in ast.walk(b)):
+            if best is None or any(x is n for x in ast.walk(best)):
+                best = n
+    return best
+
+
 def rule_retry_loop(ctx: Ctx, out: Collector) -> None:
-    unit = _retry_unit(ctx)
-    g = ctx.graph(unit.fid)
+    unit, g, head = _retry_loop(ctx)
     base = f'{unit.module.name}::{unit.qualname}'
-    heads = [ev for ev in g.events('loophead') if ev.inst.parent is None]
-    if len(heads) != 1:
-        raise AnalysisError(f'{unit.fid}: expected one while-True loop, found {len(heads)}')
-    head = heads[0]
-    loop_stmt: ast.While = head.node
+    loop_stmt = head.node
+    region = _body_region(g, head)
     pol = _policy_class(ctx)
+    env = FuncEnv.of(ctx.p, unit)
+    # ---- the invocations
+    proc_calls, dflt_calls = [], []
+    for n in env.own_nodes():
+        if isinstance(n, ast.Call):
+            for t in env.resolve_call(n):
+                if t[0] == 'func':
+                    gg = ctx.graph(t[1].fid)
+                    roles = {ctx.roles.body(ev) for ev in gg.events('call')}
+                    if 'process' in roles or 'executor' in roles:
+                        proc_calls.append(n)
+                    elif 'default' in roles:
+                        dflt_calls.append(n)
+    loop_procs = [c for c in proc_calls if any(x is c for x in ast.walk(loop_stmt))]
+    if not dflt_calls or not loop_procs:
+        raise AnalysisError(f'{unit.fid}: body / default invocation not found (RT-3 anchors vanished)')
     # ---- handlers of the try around the invocation (RT-2)
-    tries = [n for n in loop_stmt.body if isinstance(n, ast.Try)]
-    if len(tries) != 1:
-        raise AnalysisError(f'{unit.fid}: expected one try statement in the retry loop')
-    tr = tries[0]
+    tr = _innermost_try(loop_stmt, loop_procs[0])
+    if tr is None:
+        raise AnalysisError(f'{unit.fid}: no try statement around the node invocation in the retry loop')
     handlers = tr.handlers
     cons = base + '::handler classes of the invocation'
     problems = []
-    env = FuncEnv.of(ctx.p, unit)
+    exc_term, _ = _policy_term(ctx, pol, 'exceptions')
     if len(handlers) != 2:
         problems.append(f'{len(handlers)} handlers instead of (retryable, Exception)')
     else:
@@ -105,17 +159,6 @@ def rule_retry_loop(ctx: Ctx, out: Collector) -> None:
         out.bad('RT-2', cons, ctx.p.loc(unit, tr), 'the handlers around the node invocation do not match the policy: ' + '; '.join(problems))
 
     # ---- RT-3 argument agreement
-    proc_calls, dflt_calls = [], []
-    for n in env.own_nodes():
-        if isinstance(n, ast.Call):
-            for t in env.resolve_call(n):
-                if t[0] == 'func':
-                    gg = ctx.graph(t[1].fid)
-                    roles = {ctx.roles.body(ev) for ev in gg.events('call')}
-                    if 'process' in roles or 'executor' in roles:
-                        proc_calls.append(n)
-                    elif 'default' in roles:
-                        dflt_calls.append(n)
     kw = unit.node.args.kwarg.arg if unit.node.args.kwarg else None
     cons = base + '::get_default receives the same keyword arguments as the body'
     bad = []
@@ -123,8 +166,6 @@ def rule_retry_loop(ctx: Ctx, out: Collector) -> None:
         stars = [k.value.id for k in c.keywords if k.arg is None and isinstance(k.value, ast.Name)]
         if stars != [kw] or kw is None:
             bad.append(text(c))
-    if not dflt_calls or not proc_calls:
-        raise AnalysisError(f'{unit.fid}: body / default invocation not found (RT-3 anchors vanished)')
     if not bad:
         out.ok('RT-3', cons, ctx.p.loc(unit, dflt_calls[0]), f'{len(dflt_calls)} default site(s) and {len(proc_calls)} body site(s) pass **{kw}')
     else:
@@ -132,21 +173,20 @@ def rule_retry_loop(ctx: Ctx, out: Collector) -> None:
                                                               f'(**{kw}): {"; ".join(bad[:3])}')
 
     # ---- RT-4 / RT-5 / RT-6 on the graph
-    back_srcs = [m for m, lab in g.pred.get(head.id, ()) if lab == 'back']
-    proc_events = [ev for ev in g.events('call') if ev.inst.parent is None and ev.node in proc_calls]
-    sleeps = [ev for ev in g.events('call') if ctx.roles.sleep(ev) and ev.inst.parent is None]
+    proc_events = [ev for ev in g.events('call') if ev.inst.parent is None and ev.node in loop_procs]
+    sleeps = [ev for ev in g.events('call') if ctx.roles.sleep(ev) and ev.inst.parent is None and ev.id in region]
     cons = base + '::every retry sleeps the configured delay and invokes the body once'
     problems = []
     delay_ok = False
     for sl in sleeps:
         t = sym.term(ctx.p, sl.node.args[0], sl.inst) if sl.node.args else None
-        if isinstance(t, tuple) and t[0] == 'or' and isinstance(t[1][0], tuple) and t[1][0][0] == 'attr' and t[1][0][2] == 'delay':
+        if _reads_setting(t, 'delay'):
             delay_ok = True
     if not delay_ok:
         problems.append('no asyncio.sleep(<policy>.delay) in the loop')
     # a path around the loop (head -> ... -> back to head) avoiding the sleep
-    sleep_ids = {sl.id for sl in sleeps}
-    nxt = [m for m, lab in g.succ[head.id]]
+    sleep_ids = {sl.id for sl in sleeps if sl.node.args and _reads_setting(sym.term(ctx.p, sl.node.args[0], sl.inst), 'delay')}
+    nxt = [m for m, lab in g.succ[head.id] if lab in ('n', 'T')]
     for b_ in nxt:
         pth = find_path(g, b_, {head.id}, avoid=sleep_ids, labels=EXC_LABELS)
         if pth is not None:
@@ -160,9 +200,9 @@ def rule_retry_loop(ctx: Ctx, out: Collector) -> None:
         out.bad('RT-4', cons, head.where(), 'the retry loop does not wait the configured delay between attempts / does not invoke the '
                                             'body exactly once per attempt: ' + '; '.join(problems))
 
-    # ---- RT-5 counter idiom
-    cons = base + '::attempt counter idiom (k-th invocation sees counter == k, stops at attempts)'
-    verdict, detail = _counter_idiom(ctx, unit, loop_stmt, tr)
+    # ---- RT-5 counter
+    cons = base + '::attempt counter (k-th invocation sees counter == k, stops at attempts)'
+    verdict, detail = _counter(ctx, unit, g, head, region)
     if verdict == 'ok':
         out.ok('RT-5', cons, head.where(), detail)
     elif verdict == 'bad':
@@ -185,7 +225,7 @@ def rule_retry_loop(ctx: Ctx, out: Collector) -> None:
             if prev is not None and prev.kind == 'branch' and lab == 'T' and prev.info.get('test') is not None:
                 parts = []
                 decompose(prev.info['test'], True, parts)
-                if any(pol and text(gx).endswith('.use_default') for gx, pol in parts):
+                if any(pol_ and text(gx).endswith('.use_default') for gx, pol_ in parts):
                     return 1
             if e.id == head.id:
                 return None          # a new attempt: not this handler's exit any more
@@ -210,52 +250,160 @@ def rule_retry_loop(ctx: Ctx, out: Collector) -> None:
         out.bad('RT-6', cons, ctx.p.loc(unit, tr), '; '.join(problems))
 
 
-def _counter_idiom(ctx: Ctx, unit: FuncUnit, loop_stmt: ast.While, tr: ast.Try) -> Tuple[str, str]:
-    body = unit.node.body
-    # counter: a name assigned a constant before the loop and compared against <policy>.attempts in the first handler
-    h1 = tr.handlers[0] if tr.handlers else None
-    if h1 is None:
-        return 'unknown', 'no retry handler'
-    cmp_node = None
-    for n in ast.walk(ast.Module(body=h1.body, type_ignores=[])):
-        if isinstance(n, ast.If) and isinstance(n.test, ast.Compare) and len(n.test.ops) == 1 and 'attempts' in unparse(n.test):
-            cmp_node = n
-            break
-    if cmp_node is None:
-        return 'unknown', 'no comparison with <policy>.attempts in the retry handler'
-    t = cmp_node.test
-    left, right, op = t.left, t.comparators[0], t.ops[0]
-    if 'attempts' in unparse(left) and isinstance(right, ast.Name):
+_FLIP = {ast.Lt: ast.Gt, ast.Gt: ast.Lt, ast.LtE: ast.GtE, ast.GtE: ast.LtE, ast.Eq: ast.Eq, ast.NotEq: ast.NotEq}
+_NEG = {ast.Lt: ast.GtE, ast.GtE: ast.Lt, ast.Gt: ast.LtE, ast.LtE: ast.Gt, ast.Eq: ast.NotEq, ast.NotEq: ast.Eq}
+
+
+def _counter(ctx: Ctx, unit: FuncUnit, g: Graph, head: Ev, region: Set[int]) -> Tuple[str, str]:
+    """Decides "the body is invoked `attempts` times in total" from the graph:
+       * E: the comparison of a local counter with <policy>.attempts evaluated in the loop (in a branch test or
+         assigned to a flag first);
+       * with E assumed either way at the point where it is evaluated, exactly one outcome can reach the loop head
+         again (the retry arm), the other cannot (exhaustion);
+       * the counter holds c0 + (k - 1) + pre when E is evaluated in iteration k: c0 from its initialisation (or the
+         start of itertools.count), +1 per iteration, pre = increments between the loop head and E."""
+    from ..paths import FactOps, _norm, free_names
+    pol = _policy_class(ctx)
+    # --- E sites
+    sites = []          # (event, compare node)
+    for n in sorted(region):
+        ev = g.evs[n]
+        if ev.inst.parent is not None:
+            continue
+        expr = ev.info.get('test') if ev.kind == 'branch' else (ev.info.get('value') if ev.kind == 'assign' else None)
+        if expr is None:
+            continue
+        for c in ast.walk(expr):
+            if isinstance(c, ast.Compare) and len(c.ops) == 1:
+                lt = sym.term(ctx.p, c.left, ev.inst)
+                rt_ = sym.term(ctx.p, c.comparators[0], ev.inst)
+                if _reads_setting(lt, 'attempts') or _reads_setting(rt_, 'attempts'):
+                    sites.append((ev, c))
+    if not sites:
+        return 'unknown', 'no comparison with <policy>.attempts in the retry loop'
+    if len({_norm(c) for ev, c in sites}) != 1:
+        return 'unknown', f'several different comparisons with <policy>.attempts: {sorted({_norm(c) for ev, c in sites})}'
+    ev0, cmp0 = sites[0]
+    op = type(cmp0.ops[0])
+    left, right = cmp0.left, cmp0.comparators[0]
+    if _reads_setting(sym.term(ctx.p, left, ev0.inst), 'attempts'):
         left, right = right, left
-        op = {ast.Lt: ast.Gt, ast.Gt: ast.Lt, ast.LtE: ast.GtE, ast.GtE: ast.LtE}.get(type(op), type(op))()
-    if not isinstance(left, ast.Name):
-        return 'unknown', f'unrecognised comparison {unparse(t)}'
+        op = _FLIP.get(op)
+    if op is None or not isinstance(left, ast.Name):
+        return 'unknown', f'unrecognised comparison {unparse(cmp0)}'
     counter = left.id
-    inits = [s_ for s_ in body if isinstance(s_, ast.Assign) and len(s_.targets) == 1 and isinstance(s_.targets[0], ast.Name)
-             and s_.targets[0].id == counter]
-    if len(inits) != 1 or not isinstance(inits[0].value, ast.Constant) or body.index(inits[0]) > body.index(loop_stmt):
-        return 'unknown', f'{counter} is not initialised once by a constant before the loop'
-    init = inits[0].value.value
-    writes = [n for n in ast.walk(loop_stmt) if (isinstance(n, ast.AugAssign) and isinstance(n.target, ast.Name) and n.target.id == counter)
-              or (isinstance(n, ast.Assign) and any(isinstance(x, ast.Name) and x.id == counter for x in n.targets))]
-    if len(writes) != 1 or not isinstance(writes[0], ast.AugAssign) or not isinstance(writes[0].op, ast.Add) \
-            or not (isinstance(writes[0].value, ast.Constant) and writes[0].value.value == 1):
-        return 'unknown' if len(writes) != 1 else 'bad', f'{counter} is not advanced by exactly `+= 1` once per retry ({[unparse(w) for w in writes]})'
-    inc = writes[0]
-    # the increment sits in the retry handler after the comparison, outside the exhaustion branch
-    if inc not in h1.body or h1.body.index(inc) < h1.body.index(cmp_node):
-        return 'unknown', 'the increment is not a statement of the retry handler after the exhaustion test'
-    # the exhaustion branch must leave the loop on every path
-    from ..guards import always_leaves
-    if not always_leaves(cmp_node.body):
-        return 'bad', 'the exhaustion branch does not leave the loop on every path: more than `attempts` invocations'
-    # invocation k happens with counter == init + (k-1); exhaustion test `counter OP attempts` after failed invocation k
-    if isinstance(op, (ast.Eq, ast.GtE)):
-        if init == 1:
-            return 'ok', f'{counter} = 1; after a failed invocation: if {unparse(t)} -> exhausted; else {counter} += 1'
-        return 'bad', f'{counter} starts at {init}: the body is invoked attempts{"+" if init < 1 else "-"}{abs(1 - init)} times in total'
-    if isinstance(op, ast.Gt):
-        if init == 2:
-            return 'ok', 'equivalent shifted idiom'
-        return 'bad', f'`{unparse(t)}` with {counter} starting at {init}: the body is invoked attempts+{2 - init} times in total'
-    return 'unknown', f'comparison operator {type(op).__name__}'
+    # --- which outcome of E retries
+    fo = FactOps(ctx.p)
+    key = ('t', ev0.inst.iid, _norm(cmp0), free_names(cmp0))
+    reach_head = {}
+    leaves = {}
+    for val in (True, False):
+        rh = lv = False
+        for ev, c in sites:
+            s = Search(ctx.p, g, NORMAL_LABELS)
+            res = s.run([(ev.id, 0, frozenset([(key, val)]))], lambda e, st, f: 0 if st is not None else None,
+                        lambda e, st, f: e.id == head.id)
+            rh = rh or res is not None
+            s = Search(ctx.p, g, NORMAL_LABELS)
+            res = s.run([(ev.id, 0, frozenset([(key, val)]))], lambda e, st, f: None if e.id == head.id else 0,
+                        lambda e, st, f: e.kind in ('return', 'raise') and e.inst.parent is None)
+            lv = lv or res is not None
+        reach_head[val], leaves[val] = rh, lv
+    if reach_head[True] and reach_head[False]:
+        return 'bad', f'whatever `{unparse(cmp0)}` yields the loop can run the body again: more than `attempts` invocations'
+    if not reach_head[True] and not reach_head[False]:
+        return 'bad', f'after `{unparse(cmp0)}` the loop never runs the body again: a failed attempt is never retried'
+    exhausted_when = not reach_head[True]        # E == exhausted_when  <=> exhausted
+    retry_val = not exhausted_when
+    if leaves[retry_val]:
+        return 'bad', f'with `{unparse(cmp0)}` {"false" if exhausted_when else "true"} (attempts left) the handler can still leave ' \
+                      f'the loop: fewer than `attempts` invocations'
+    if not exhausted_when:
+        op = _NEG[op]
+    # --- the counter: initial value, +1 per iteration, increments before E
+    own_assigns = [g.evs[n] for n in sorted(region) if g.evs[n].kind == 'assign' and g.evs[n].inst.parent is None
+                   and g.evs[n].info.get('name') == counter]
+    if head.kind == 'loop':
+        tgt = head.info.get('target')
+        it = head.info.get('iter')
+        if not (isinstance(tgt, ast.Name) and tgt.id == counter):
+            return 'unknown', f'{counter} is not the loop variable'
+        tg = FuncEnv.of(ctx.p, unit).resolve_call(it) if isinstance(it, ast.Call) else []
+        if not any(t[0] == 'ext' and t[1] == 'itertools.count' for t in tg):
+            return 'unknown', f'loop over {unparse(it)}: only `while True` and itertools.count() loops are modelled'
+        args = list(it.args) + [k.value for k in it.keywords]
+        named = {k.arg: k.value for k in it.keywords}
+        start = it.args[0] if it.args else named.get('start')
+        step = it.args[1] if len(it.args) > 1 else named.get('step')
+        if start is not None and not (isinstance(start, ast.Constant) and isinstance(start.value, int)):
+            return 'unknown', f'itertools.count start {unparse(start)}'
+        if step is not None and not (isinstance(step, ast.Constant) and step.value == 1):
+            return 'bad', f'itertools.count step {unparse(step)}: the counter does not advance by one per attempt'
+        init = start.value if start is not None else 0
+        if own_assigns:
+            return 'unknown', f'{counter} is reassigned inside the loop'
+        pre = 0
+        how = f'for {counter} in itertools.count({init})'
+    else:
+        # constant reaching the loop head on first entry
+        inits = set()
+        s = Search(ctx.p, g, NORMAL_LABELS)
+
+        def goal(e, st, f):
+            if e.id == head.id:
+                inits.add(fo.get(f, ('v', head.inst.iid, counter)))
+            return False
+        s.run([(g.entry, 0, frozenset())], lambda e, st, f: None if e.id in region else 0, goal)
+        if len(inits) != 1 or None in inits or not isinstance(next(iter(inits))[0], int):
+            return 'unknown', f'{counter} does not reach the loop with one constant value ({inits})'
+        init = next(iter(inits))[0]
+        for a in own_assigns:
+            nd = a.node
+            if not (isinstance(nd, ast.AugAssign) and isinstance(nd.op, ast.Add) and isinstance(nd.value, ast.Constant) and nd.value.value == 1):
+                return 'bad' if isinstance(nd, ast.AugAssign) else 'unknown', \
+                    f'{counter} is changed by `{unparse(nd)}`, not advanced by exactly one per retry'
+        inc_ids = {a.id for a in own_assigns}
+        if not inc_ids:
+            return 'bad', f'{counter} is never advanced: the loop never exhausts'
+
+        def count_paths(starts, targets):
+            """set of increment counts over all normal paths starts -> targets (capped at 2)"""
+            counts = set()
+            s2 = Search(ctx.p, g, EXC_LABELS)
+
+            def step(e, st, f):
+                if e.id in inc_ids:
+                    return min(st + 1, 2)
+                return st
+
+            def goal2(e, st, f):
+                if e.id in targets:
+                    counts.add(st)
+                return False
+
+            def edge_ok(a, lab, b):
+                return a.id not in targets
+            s2.run(starts, step, goal2, edge_ok=edge_ok)
+            return counts
+        nxt = [(m, 0, frozenset()) for m, lab in g.succ[head.id] if lab in ('n', 'T')]
+        around = count_paths(nxt, {head.id})
+        if around != {1}:
+            return 'bad', f'{counter} is advanced {sorted(around)} times on a way around the loop, not exactly once per retry'
+        pres = count_paths(nxt, {ev.id for ev, c in sites})
+        if len(pres) != 1:
+            return 'unknown', f'{counter} is advanced a varying number of times before `{unparse(cmp0)}`'
+        pre = next(iter(pres))
+        how = f'{counter} = {init}; {counter} += 1 once per retry ({"before" if pre else "after"} the test)'
+    # --- value at E in iteration k: init + (k-1) + pre; exhausted <=> value OP attempts; required: exhausted <=> k >= attempts
+    v1 = init + pre          # value in iteration 1
+    if op in (ast.Eq, ast.GtE):
+        if v1 == 1:
+            return 'ok', f'{how}; exhausted iff {counter} {"==" if op is ast.Eq else ">="} attempts: invocation k sees {counter} == k'
+        return 'bad', f'{how}: the counter is {v1} after the first failed attempt, so the body is invoked attempts{1 - v1:+d} times in total'
+    if op is ast.Gt:
+        if v1 == 2:
+            return 'ok', f'{how}; exhausted iff {counter} > attempts'
+        return 'bad', f'{how}, exhausted iff {counter} > attempts: the body is invoked attempts{2 - v1:+d} times in total'
+    sym_ = {ast.NotEq: '!=', ast.Lt: '<', ast.LtE: '<='}.get(op, op.__name__)
+    return 'bad', f'{how}; the loop gives up iff {counter} {sym_} attempts, which does not hold exactly from invocation number ' \
+                  f'`attempts` on: the body is not invoked `attempts` times in total'
